@@ -5183,6 +5183,24 @@ where
             return Ok(0);
         };
 
+        // Transactional guard: the removal itself or the Delaunay repair that follows it can
+        // fail after the TDS has been edited. Roll back so `Err` leaves the triangulation unchanged.
+        let tds_snapshot = self.tri.tds.clone();
+        let result = self.remove_vertex_by_key_then_repair(vertex, vertex_key);
+        if result.is_err() {
+            self.tri.tds = tds_snapshot;
+        }
+        result
+    }
+
+    fn remove_vertex_by_key_then_repair(
+        &mut self,
+        vertex: &Vertex<K::Scalar, U, D>,
+        vertex_key: VertexKey,
+    ) -> Result<usize, TriangulationValidationError>
+    where
+        K::Scalar: ScalarSummable,
+    {
         // Fast path: inverse k=1 flip when the vertex star is a simplex.
         let mut seed_cells: Option<CellKeyBuffer> = None;
         let cells_removed = match apply_bistellar_flip_k1_inverse(
